@@ -559,6 +559,7 @@ func runScratch(c *core.Ctx) []core.Obligation {
 	obs = append(obs, scratchOther(c, "MinDistanceToShapeIndexTarget", map[string]string{})...)
 	obs = append(obs, scratchOther(c, "MaxDistanceToShapeIndexTarget", map[string]string{})...)
 	obs = append(obs, scratchOther(c, "ContainsPointQuery", map[string]string{})...)
+	obs = append(obs, scratchOther(c, "loopCrosser", map[string]string{})...)
 	writes := structFieldWrites(c, S)
 	reads := structFieldReads(c, S)
 	// public query entry points of EdgeQuery
